@@ -13,6 +13,8 @@ import (
 	"context"
 	"encoding/hex"
 	"fmt"
+	"os"
+	"path/filepath"
 	"sort"
 	"strings"
 	"sync"
@@ -65,6 +67,13 @@ type Fault struct {
 	Mode string `json:"mode"` // 403 | truncate (LIST only)
 }
 
+// Upload is a StoreChunk call made through the store under test before the operation: the
+// temporary files of C16 are then the ones the real upload path leaves behind.
+type Upload struct {
+	Ref   int  `json:"ref"`             // universe chunk
+	Block bool `json:"block,omitempty"` // a non-empty directory sits at the chunk's name while it is stored: the final rename fails
+}
+
 type Case struct {
 	Backend      string      `json:"backend"` // local | s3 | sftp
 	Prefix       string      `json:"prefix,omitempty"`
@@ -78,6 +87,8 @@ type Case struct {
 	Chunks       []ChunkSpec `json:"chunks"`
 	Extras       []Extra     `json:"extras,omitempty"`
 	KeepGhost    []int       `json:"keep_ghost,omitempty"` // IDs outside the universe in the keep-set
+	Uploads      []Upload    `json:"uploads,omitempty"`    // local/sftp prune cases: real StoreChunk calls before the prune
+	CLI          *CLICase    `json:"cli,omitempty"`        // run the operation through $VERIF_DESYNC_BIN (cli_test.go)
 }
 
 // ------------------------------------------------------------------ generator
@@ -159,6 +170,14 @@ func genCase(t *rapid.T) Case {
 		}
 		c.Extras = append(c.Extras, e)
 	}
+	if c.Op == "prune" && c.Backend != "s3" && n > 0 && rapid.IntRange(0, 2).Draw(t, "uploading") == 0 {
+		for i, k := 0, rapid.IntRange(1, 3).Draw(t, "uploads"); i < k; i++ {
+			c.Uploads = append(c.Uploads, Upload{Ref: rapid.IntRange(0, n-1).Draw(t, "uref"), Block: rapid.IntRange(0, 2).Draw(t, "ublock") > 0})
+		}
+	}
+	if drawCLI(t) {
+		genCLI(t, &c)
+	}
 	return c
 }
 
@@ -231,6 +250,7 @@ type layout struct {
 	order   []string
 	outside map[string][]byte // S3 only: full object keys outside the store prefix
 	ids     []string          // hex ID per universe chunk
+	datas   [][]byte          // plain content per universe chunk
 	keep    map[string]bool   // hex IDs
 }
 
@@ -261,6 +281,7 @@ func materialize(c Case) *layout {
 		datas[i] = content(s.Seed, s.Len)
 		l.ids = append(l.ids, hashID(datas[i]))
 	}
+	l.datas = datas
 	for i, s := range c.Chunks {
 		h := l.ids[i]
 		next := datas[(i+1)%n]
@@ -420,6 +441,11 @@ func (w *lockedBuf) String() string {
 }
 
 func norm(c *Case) {
+	if c.CLI != nil && cliBin() != "" {
+		normCLI(c)
+	} else {
+		c.CLI = nil
+	}
 	switch c.Backend {
 	case "local", "s3", "sftp":
 	default:
@@ -442,6 +468,12 @@ func norm(c *Case) {
 	}
 	if c.Fault != nil && c.Fault.At < 1 {
 		c.Fault.At = 1
+	}
+	if c.Backend == "s3" || c.Op != "prune" || len(c.Chunks) == 0 {
+		c.Uploads = nil
+	}
+	if len(c.Uploads) > 4 {
+		c.Uploads = c.Uploads[:4]
 	}
 }
 
@@ -498,6 +530,51 @@ func run(c Case) (o hx.Outcome) {
 			be.put(k, l.outside[k])
 		}
 	}
+	// real uploads through the store under test; what they leave behind besides chunk files is
+	// an abandoned temporary chunk file by provenance
+	uploadsOK, uploadsFailed := 0, 0
+	var uploadViolations []string
+	if len(c.Uploads) > 0 {
+		d := be.(*dirBackend)
+		pre := be.snapshot()
+		for _, u := range c.Uploads {
+			r := ((u.Ref % len(l.ids)) + len(l.ids)) % len(l.ids)
+			rel := l.ids[r][:4] + "/" + l.ids[r] + ext(c.Uncompressed)
+			p := filepath.Join(d.dir, filepath.FromSlash(rel))
+			_, statErr := os.Lstat(p)
+			existed := statErr == nil
+			blocked := false
+			if u.Block && !existed {
+				if err := os.MkdirAll(filepath.Join(p, "x"), 0o755); err != nil {
+					infra("mkdir %s: %v", p, err)
+				}
+				blocked = true
+			}
+			err := d.pruner.StoreChunk(desync.NewChunk(append([]byte(nil), l.datas[r]...)))
+			if blocked {
+				if rmErr := os.RemoveAll(p); rmErr != nil {
+					infra("remove %s: %v", p, rmErr)
+				}
+			}
+			if err == nil {
+				uploadsOK++
+			} else {
+				uploadsFailed++
+				if fi, e := os.Lstat(p); !existed && e == nil && fi.Mode().IsRegular() {
+					uploadViolations = append(uploadViolations, rel)
+				}
+			}
+		}
+		post := be.snapshot()
+		v.born = map[string]bool{}
+		for k := range post {
+			if _, was := pre[k]; !was {
+				if cl := v.classOf(k); cl.Kind != kOwn && cl.Kind != kOther {
+					v.born[k] = true
+				}
+			}
+		}
+	}
 	before := be.snapshot()
 
 	// census of the populated store
@@ -535,8 +612,53 @@ func run(c Case) (o hx.Outcome) {
 	var after snap
 	var output string
 	nReported := 0
-	switch c.Op {
-	case "prune":
+	var cli *cliResult
+	var ishape cliShape
+	if c.CLI != nil {
+		v.via = "cli"
+		ishape = shapeOf(c.CLI, l.ids)
+		if c.Op == "prune" {
+			l.keep = ishape.keep
+			ownUnref, ownRef = 0, 0
+			for _, k := range sortedKeys(before) {
+				if cl := v.classOf(k); cl.Kind == kOwn {
+					if l.keep[cl.ID] {
+						ownRef++
+					} else {
+						ownUnref++
+					}
+				}
+			}
+			keepMode = "indexes"
+		}
+		res := runCLI(c, be.(*dirBackend).dir, l)
+		cli = &res
+		if res.exit != 0 {
+			msg := res.stderr
+			if len(msg) > 300 {
+				msg = msg[len(msg)-300:]
+			}
+			opErr = fmt.Errorf("exit status %d: %s", res.exit, strings.TrimSpace(msg))
+		}
+		after = be.snapshot()
+	}
+	switch {
+	case cli != nil && c.Op == "prune":
+		vd = judgePrune(v, before, after, l.keep, opErr)
+		if opErr != nil && count["chunk-named"] == 0 {
+			vd.add("C16:cli:prune:error-exit", opErr.Error())
+		}
+	case cli != nil:
+		output = cli.stderr
+		reported, _ := reportedInvalid(output)
+		nReported = len(reported)
+		ended := vComplete
+		if opErr != nil {
+			o.Class("verify:error")
+			ended = vAborted
+		}
+		vd = judgeVerify(v, before, after, reported, c.Repair, ended)
+	case c.Op == "prune":
 		keep := map[desync.ChunkID]struct{}{}
 		for h := range l.keep {
 			b, _ := hex.DecodeString(h)
@@ -547,7 +669,7 @@ func run(c Case) (o hx.Outcome) {
 		opErr = be.prune(ctx, keep)
 		after = be.snapshot()
 		vd = judgePrune(v, before, after, l.keep, opErr)
-	case "verify":
+	case c.Op == "verify":
 		w := &lockedBuf{}
 		opErr = local.Verify(ctx, c.N, c.Repair, w)
 		after = be.snapshot()
@@ -655,7 +777,85 @@ func run(c Case) (o hx.Outcome) {
 		o.Class("nontrivial:" + beName + ":" + c.Op)
 	}
 
+	if len(c.Uploads) > 0 {
+		o.Class(c.Backend + ":uploads")
+		if uploadsOK > 0 {
+			o.Class(c.Backend + ":upload:ok")
+		}
+		if uploadsFailed > 0 {
+			o.Class(c.Backend + ":upload:failed")
+		}
+		if len(v.born) > 0 {
+			o.Class(c.Backend + ":abandoned-tempfile:real-upload")
+			if opErr == nil {
+				o.Class(c.Backend + ":abandoned-tempfile:real-upload:prune-ok")
+			}
+		}
+		for _, rel := range uploadViolations {
+			vd.add("C16:"+c.Backend+":upload:failed-but-present", rel)
+		}
+	}
+	if cli != nil {
+		o.Class("via:cli", "cli:"+c.Op, "cli:"+mode)
+		if c.Op == "prune" {
+			switch {
+			case ishape.multi:
+				o.Class("cli:prune:multi-index")
+			default:
+				o.Class("cli:prune:single-index")
+			}
+			for name, on := range map[string]bool{"smaller-index-first": ishape.smallerFirst, "larger-index-first": ishape.largerFirst,
+				"overlapping-indexes": ishape.overlapping, "disjoint-indexes": ishape.disjoint, "caidx+caibx": ishape.mixed,
+				"unreferenced-present": ownUnref > 0, "referenced-present": ownRef > 0, "exit0": opErr == nil, "stdin-index": c.CLI.Stdin > 0} {
+				if on {
+					o.Class("cli:prune:" + name)
+				}
+			}
+			absent := false
+			for id := range ishape.keep {
+				if _, ok := before[id[:4]+"/"+id+ext(c.Uncompressed)]; !ok {
+					absent = true
+				}
+			}
+			if absent {
+				o.Class("cli:prune:referenced-absent")
+			}
+			// the seeded-change trigger needs chunks that only an earlier, smaller index references
+			o.Nontrivial = ishape.multi && ownUnref > 0 && ownRef > 0
+		} else {
+			if c.Repair {
+				o.Class("cli:verify:repair")
+			} else {
+				o.Class("cli:verify:no-repair")
+			}
+			if nReported > 0 {
+				o.Class("cli:verify:reported>0")
+			}
+		}
+		if o.Nontrivial {
+			o.Class("nontrivial:cli:" + c.Op)
+		}
+		desc["cli"] = fmt.Sprintf("indexes=%d stdin=%d long=%v cfg=%s", len(c.CLI.Indexes), c.CLI.Stdin, c.CLI.Long, c.CLI.Cfg)
+		if c.Op == "prune" {
+			var lens []string
+			for _, ix := range c.CLI.Indexes {
+				kind := "x"
+				if ix.Caidx {
+					kind = "d"
+				}
+				lens = append(lens, fmt.Sprintf("%d%s", len(ix.Chunks), kind))
+			}
+			desc["cli_indexes"] = strings.Join(lens, ",")
+		}
+		if obs, ok := o.Observed.(map[string]any); ok {
+			obs["cli_args"], obs["cli_stderr"], obs["cli_exit"] = cli.args, cli.stderr, cli.exit
+		}
+	}
+
 	what := fmt.Sprintf("%s store (%s mode), %s", beName, mode, c.Op)
+	if cli != nil {
+		what = "desync " + c.Op + " (child process) on a " + what
+	}
 	if c.Op == "verify" {
 		what += fmt.Sprintf(" n=%d repair=%v", c.N, c.Repair)
 	} else {
